@@ -776,6 +776,20 @@ func (s *Store) CloseWatchers(client string) int {
 	return n
 }
 
+// OpenWatchers returns, per client, the number of watches that were handed out to the
+// client and neither stopped by it nor ended from the store's side.
+func (s *Store) OpenWatchers() map[string]int {
+	s.mu.Lock()
+	defer s.mu.Unlock()
+	out := map[string]int{}
+	for _, w := range s.watchers {
+		if !w.stopped && !w.closeCh {
+			out[w.c.name]++
+		}
+	}
+	return out
+}
+
 // Close releases every parked or sleeping call and feeder, and waits for them.
 func (s *Store) Close() {
 	s.mu.Lock()
